@@ -36,12 +36,12 @@ TIMEOUT = {'quick': 1200, 'thorough': 7200}
 
 def cases(tier, seed):
     cs = []
-    n = 40 if tier == 'quick' else 500
+    n = 40 if tier == 'quick' else 1500
     for i in range(n):
         cs.append({'kind': 'random', 'net_seed': seed * 1000003 + i, 'seed': seed * 7919 + i,
                    'limit': 24 if tier == 'quick' else 64})
     # many-branch blocks: the name-prefix hazard sn_branches.1 vs sn_branches.10/11
-    for i in range(4 if tier == 'quick' else 30):
+    for i in range(4 if tier == 'quick' else 90):
         cs.append({'kind': 'wide', 'net_seed': seed * 1000003 + 5000 + i, 'seed': seed * 31 + i,
                    'branches': [10, 11, 12][i % 3], 'limit': 14 if tier == 'quick' else 40})
     return cs
